@@ -436,6 +436,11 @@ def rule_name_space(ctx: Ctx) -> None:
     fs = P.func(f"{PFM}.PipeFunc._flatten_scopes")
     all_its = iterations(fs.node)
     outer_targets = {x.id for it in all_its for x in ast.walk(it["target"]) if isinstance(x, ast.Name)}
+    # ... and locals computed from them (`scoped = {...for name, value in v.items()}`): an iteration over those is still one over the scope's entries
+    for _ in range(3):
+        for a in ast.walk(fs.node):
+            if isinstance(a, ast.Assign) and any(isinstance(x, ast.Name) and x.id in outer_targets for x in ast.walk(a.value)):
+                outer_targets |= {t.id for t in a.targets if isinstance(t, ast.Name)}
     # the iteration over ONE scope's `{name: value}` dict: its source is a loop variable of the iteration over the keywords
     its = [it for it in all_its if any(isinstance(x, ast.Name) and x.id in outer_targets for x in ast.walk(it["iter"]))]
     def about_entry(text: str, it: dict) -> bool:
